@@ -21,6 +21,7 @@ class MailboxProgram(Program):
 
     # handles live in st.meta[('h', name)] = oid of an object holding the handle value
     def H(self, st, name):
+        S.touch(st, ('h', name), True)
         oid = st.meta.get(('h', name))
         if oid is None or st.objs.get(oid) is TOMB:
             raise Unsupported(f"script uses missing handle {name}")
@@ -30,6 +31,7 @@ class MailboxProgram(Program):
         return VRef(('obj', self.H(st, name)), (), mut)
 
     def put(self, st, name, val):
+        S.touch(st, ('h', name), True)
         st.meta[('h', name)] = st.alloc(val)
 
     def take(self, st, name):
@@ -40,6 +42,29 @@ class MailboxProgram(Program):
         return v
 
     def setup(self):
+        if getattr(self, 'owning', False):
+            return self.setup_owning()
+        return self.setup_plain()
+
+    def setup_owning(self):
+        """spawn through the real entry point `Spawnable::spawn_owning` (TokioSpawner::spawn_actor from MIR, tokio::spawn
+        modelled): the handle `o` is an OwningAddr"""
+        st = State()
+        st.meta['next_task_name'] = 'loop'
+        st, o = self.call(st, '<Self as Spawnable<S>>::spawn_owning', [VSym('actor0', 'A')])
+        self.chan_oid = next(ev[1] for ev in st.events if ev[0] == 'chan_new')
+        self.put(st, 'o', o)
+        for i, op in enumerate(self.pre):
+            for s2, fut in self.start_op(st, 'pre', i, op):
+                if fut is not None or s2 is not st:
+                    raise Unsupported("pre-operations must be synchronous")
+        st.events[:] = [e for e in st.events if not (e[0] == 'op_end' and e[1] == 'pre')]
+        for name, script in self.scripts.items():
+            self.add_task(st, name, UNIT, kind='client', script=script)
+        st.events.append(('setup_done',))
+        return st
+
+    def setup_plain(self):
         st = State()
         if self.cap is None:
             st, ch = self.call(st, 'Channel::<A>::unbounded', [])
@@ -150,6 +175,38 @@ class MailboxProgram(Program):
             s2, r = self.call(st, 'WeakAddr::<A>::try_stop', [self.href(st, op[1], True)])
             s2.event('op_end', name, pc, k, self.sys.describe_result(s2, r))
             yield s2, None
+        elif k == 'mk_join':
+            s2, fut = self.call(st, 'OwningAddr::<A>::join', [self.href(st, op[1], True)])
+            self.put(s2, op[2], fut)
+            s2.event('op_end', name, pc, k, op[2])
+            yield s2, None
+        elif k == 'await_fut':
+            fut = self.take(st, op[1])
+            yield st, fut
+        elif k == 'join':
+            s2, fut = self.call(st, 'OwningAddr::<A>::join', [self.href(st, op[1], True)])
+            yield s2, fut
+        elif k == 'consume':
+            o = self.take(st, op[1])
+            s2, fut = self.call(st, 'OwningAddr::<A>::consume', [o])
+            yield s2, fut
+        elif k == 'detach':
+            o = self.take(st, op[1])
+            s2, a = self.call(st, 'OwningAddr::<A>::detach', [o])
+            self.put(s2, op[2], a)
+            s2.event('op_end', name, pc, k, op[2])
+            yield s2, None
+        elif k == 'to_addr':
+            s2, a = self.call(st, 'OwningAddr::<A>::to_addr', [self.href(st, op[1])])
+            self.put(s2, op[2], a)
+            s2.event('op_end', name, pc, k, op[2])
+            yield s2, None
+        elif k == 'o_call':
+            s2, fut = self.call(st, 'OwningAddr::<A>::call::<M>', [self.href(st, op[1]), Msg.new(op[2])])
+            yield s2, fut
+        elif k == 'o_send':
+            s2, fut = self.call(st, 'OwningAddr::<A>::send::<M>', [self.href(st, op[1]), Msg.new(op[2])])
+            yield s2, fut
         else:
             raise Unsupported(f"unknown op {k}")
 
@@ -292,14 +349,19 @@ def oracle_backpressure(tr, cap, scripts, want_counts=False):
                     v.append(f"send on an unbounded mailbox needed more than one poll ({len(scheds) + 1})")
         return v
     entered = {}
+    term = None
     for i, e in enumerate(tr):
         if e[0] == 'user_call' and e[1] == 'handle':
             entered.setdefault(e[4], i)
+        if term is None and e[0] in ('task_done', 'task_killed', 'task_panicked') and e[1] == 'loop':
+            term = i          # the receiver is dropped: everything still queued is taken out (and discarded)
     sends = []
     for o in _ops(tr):
         if o['kind'] in ('send', 'sender_send', 'weak_send') and o['end'] is not None and str(o['result']).startswith('Ok'):
             sends.append((o['end'], _msg_of(scripts[o['client']][o['pc']])))
     for (ri, _m) in sends:
+        if term is not None and ri > term:
+            continue
         behind = sum(1 for (rj, mj) in sends if rj <= ri and not (mj in entered and entered[mj] < ri))
         if want_counts:
             v.append(behind)
@@ -319,14 +381,15 @@ STRONG_MAKERS = {'clone': 2, 'mk_sender': 2, 'mk_caller': 2}
 WEAK_MAKERS = {'downgrade': 2, 'mk_weak_sender': 2, 'mk_weak_caller': 2}
 
 
-def oracle_handles(tr, status, scripts):
+def oracle_handles(tr, status, scripts, initial='addr'):
     """C05 / C15 over the trace of a handle-manipulation program.  Ghost state: the set of live strong handles (by the
     script's names).  Returns (c05, c15) violation lists."""
     c05, c15 = [], []
-    strong = {'addr': 'Addr'}
+    strong = {initial: 'Addr' if initial == 'addr' else 'OwningAddr'}
     kindof = {'clone': 'Addr', 'mk_sender': 'Sender', 'mk_caller': 'Caller', 'upgrade': 'Addr', 'upgrade_sender': 'Sender',
               'upgrade_caller': 'Caller'}
     stop_issued = False
+    restarting = False
     failed = any(e[0] == 'task_done' and e[1] == 'loop' and not str(e[2]).startswith('Ok') for e in tr)
     last_strong_drop = None
     for i, e in enumerate(tr):
@@ -342,6 +405,11 @@ def oracle_handles(tr, status, scripts):
                     c05.append(f"{kind} succeeded although no strong handle is left")
                 if res == 'Some' and len(op) > 2:
                     strong[op[2]] = kindof[kind]
+            elif kind == 'to_addr':
+                strong[op[2]] = 'Addr'
+            elif kind == 'detach':
+                strong.pop(op[1], None)
+                strong[op[2]] = 'Addr'
             elif kind == 'drop':
                 if op[1] in strong:
                     del strong[op[1]]
@@ -349,7 +417,7 @@ def oracle_handles(tr, status, scripts):
                         last_strong_drop = i
             elif kind in ('stop', 'try_stop') and str(res).startswith('Ok'):
                 stop_issued = True
-        elif e[0] == 'op_begin' and e[3] == 'halt':
+        elif e[0] == 'op_begin' and e[3] in ('halt', 'consume'):
             stop_issued = True
             strong.pop(scripts[e[1]][e[2]][1], None)
         elif e[0] == 'script_result':
@@ -359,8 +427,12 @@ def oracle_handles(tr, status, scripts):
                     c15.append(f"{what} from a handler returned {res} although strong handles {sorted(set(strong.values()))} exist")
                 if what == 'ctx.stop' and str(res).startswith('Ok'):
                     stop_issued = True
+        elif e[0] == 'refresh_call':
+            restarting = True
+        elif e[0] == 'user_call' and e[1] == 'started':
+            restarting = False
         elif e[0] == 'user_call' and e[1] == 'stopped':
-            if strong and not stop_issued and not failed:
+            if strong and not stop_issued and not failed and not restarting:
                 c05.append(f"actor stopped although strong handles {sorted(set(strong.values()))} exist and nobody stopped it")
     if status == 'quiescent' and not strong and not failed:
         done = [e for e in tr if e[0] == 'task_done' and e[1] == 'loop']
@@ -395,4 +467,66 @@ def oracle_liveness_flags(tr, scripts):
                 v.append(f"{e[3]}() reports not-stopped after the actor terminated ({'an address was awaited before' if polled else 'no address was ever awaited'})")
             if (term is None or i < term) and says_stopped:
                 v.append(f"{e[3]}() reports stopped while the actor is still running")
+    return v
+
+
+def oracle_containment(tr, status, scripts):
+    """C06 (single actor part): once the actor task died (cancelled, panicked, failed), every pending and later
+    operation on it resolves with an error, awaiting its address yields an error, nothing is handled afterwards."""
+    v = []
+    death = None
+    for i, e in enumerate(tr):
+        if e[0] in ('task_killed', 'task_panicked') and e[1] == 'loop':
+            death = i
+            break
+        if e[0] == 'task_done' and e[1] == 'loop' and not str(e[2]).startswith('Ok'):
+            death = i
+            break
+    if death is None:
+        return v
+    for o in _ops(tr):
+        if o['kind'] in SUBMIT + ('ping', 'await', 'halt'):
+            if o['begin'] > death and o['end'] is not None and str(o['result']).startswith('Ok'):
+                v.append(f"{o['kind']} issued after the actor died returned {o['result']}")
+            if o['kind'] in ('await', 'halt') and o['end'] is not None and o['end'] > death and str(o['result']).startswith('Ok'):
+                v.append(f"awaiting the address of a dead actor yielded {o['result']}")
+            if status == 'quiescent' and o['end'] is None:
+                v.append(f"{o['client']} {o['kind']}({o['arg']}) is still pending although the actor died (system quiescent)")
+    late = [e for e in tr[death + 1:] if e[0] == 'user_call']
+    if late:
+        v.append(f"callback {late[0][1]} ran after the actor task had died")
+    return v
+
+
+def oracle_owning(tr, status, scripts):
+    """C17: join / consume resolve only after the actor terminated, yield the actor in its final state (after its last
+    handler and its stopped callback) iff termination was graceful, None if it failed; the value is handed out once."""
+    v = []
+    term = next((i for i, e in enumerate(tr) if e[0] in ('task_done', 'task_killed', 'task_panicked') and e[1] == 'loop'), None)
+    graceful = term is not None and tr[term][0] == 'task_done' and str(tr[term][2]).startswith('Ok')
+    last_cb = None
+    for e in tr:
+        if e[0] == 'user_done':
+            last_cb = e
+    somes = 0
+    for o in _ops(tr):
+        if o['kind'] in ('join', 'await_fut', 'consume') and o['end'] is not None:
+            res = str(o['result'])
+            if term is None or o['end'] < term:
+                v.append(f"{o['kind']} resolved ({res}) before the actor terminated")
+            got = res.startswith('Some') or res.startswith('Ok(')
+            if got:
+                somes += 1
+                if not graceful:
+                    v.append(f"{o['kind']} yielded the actor although termination was not graceful")
+                if 'stopped' not in res:
+                    v.append(f"{o['kind']} yielded an actor value that did not go through stopped(): {res}")
+
+    if somes > 1:
+        v.append(f"the actor value was handed out {somes} times")
+    joins = [o for o in _ops(tr) if o['kind'] in ('join', 'await_fut', 'consume')]
+    if graceful and joins and all(o['end'] is not None for o in joins) and somes == 0:
+        v.append("the actor terminated gracefully and every join completed, but none of them yielded the actor")
+    if status == 'panicked':
+        v.append("a client task panicked while joining")
     return v
